@@ -25,7 +25,8 @@ impl Rng {
 }
 
 fn gen_tfm(r: &mut Rng) -> Vec<u8> {
-    let lh = if r.below(3) == 0 { 18 } else { 2 + r.below(3) as u16 };
+    // header lengths: the 18 words TFtoPL names, shorter ones, a few extra words, and (rarely) more than 256 words
+    let lh = match r.below(16) { 0..=4 => 18, 5 | 6 => 12 + r.below(8) as u16, 7 | 8 => 19 + r.below(4) as u16, 9 if r.below(3) == 0 => 250 + r.below(60) as u16, _ => 2 + r.below(3) as u16 };
     let bc = r.below(6) as u16 + if r.below(4) == 0 { 60 } else { 0 };
     let nchars = r.below(7) as u16;
     let (bc, ec) = if nchars == 0 { (1, 0) } else { (bc, bc + nchars - 1) };
@@ -91,20 +92,42 @@ fn font_description(pl: &str) -> String {
 /// a well-formed file: every index inside its table, every referenced character present, zero first table entries,
 /// lig/kern chains that stop - so that TFtoPL has nothing to complain about and the C11 clauses apply
 fn gen_clean_tfm(r: &mut Rng) -> Vec<u8> {
-    let lh = 2u16;
-    let bc = r.below(4) as u16 + if r.below(3) == 0 { 65 } else { 0 };
-    let nchars = 1 + r.below(6) as u16;
+    // one file in 40 fills the dimension tables to their limits: 255 characters with 255 distinct widths, 15 / 15 / 63
+    // distinct non-zero heights / depths / italic corrections (compress must leave them alone)
+    let full = r.below(40) == 0;
+    let lh = match r.below(8) { 0 | 1 => 2u16, 2 => 12 + r.below(6) as u16, 3 => 17, 4 | 5 => 18, 6 => 19 + r.below(3) as u16, _ => if r.below(6) == 0 { 257 + r.below(40) as u16 } else { 18 } };
+    let bc = if full { 0 } else { r.below(4) as u16 + if r.below(3) == 0 { 65 } else { 0 } };
+    let nchars = if full { 255 } else { 1 + r.below(6) as u16 };
     let ec = bc + nchars - 1;
-    let nw = 2 + r.below(3) as u16; let nh = 1 + r.below(3) as u16; let nd = 1 + r.below(3) as u16; let ni = 1 + r.below(3) as u16;
+    let (nw, nh, nd, ni) = if full { (256u16, 16u16, 16u16, 64u16) } else { (2 + r.below(3) as u16, 1 + r.below(3) as u16, 1 + r.below(3) as u16, 1 + r.below(3) as u16) };
     let nl = r.below(9) as u16; let nk = if nl > 0 { 1 + r.below(3) as u16 } else { 0 }; let ne = r.below(3) as u16; let np = r.below(9) as u16;
     let lf = 6 + lh + nchars + nw + nh + nd + ni + nl + nk + ne + np;
     let mut b: Vec<u8> = vec![];
     for v in [lf, lh, bc, ec, nw, nh, nd, ni, nl, nk, ne, np] { b.extend(v.to_be_bytes()); }
     b.extend(r.word().to_be_bytes());
     b.extend(((1 + r.below(40) as u32) << 20).to_be_bytes());
+    // header words 2..: CODINGSCHEME (10 words, a BCPL string of at most 39 characters), FAMILY (5 words, at most 19),
+    // SEVENBITSAFEFLAG + two unused bytes + FACE, then arbitrary extra words; the strings are often of FULL length
+    let mut hdr: Vec<u8> = vec![];
+    let bcpl = |r: &mut Rng, area: usize| -> Vec<u8> {
+        let max = area - 1;
+        let len = match r.below(4) { 0 => max, 1 => max - 1, 2 => 0, _ => r.below(max as u64 + 1) as usize };
+        let mut v = vec![len as u8];
+        for k in 0..len { v.push(if k > 0 && k + 1 < len && r.below(7) == 0 { b'-' } else { b"ABCDEFGHIJKLMNOPQRSTUVWXYZ0123456789"[r.below(36) as usize] }); }
+        v.resize(area, 0);
+        v
+    };
+    hdr.extend(bcpl(r, 40));
+    hdr.extend(bcpl(r, 20));
+    let face = if r.below(2) == 0 { r.below(18) as u8 } else { r.below(256) as u8 };
+    hdr.extend([0u8, 0, 0, face]);
+    while hdr.len() < (lh as usize - 2) * 4 { hdr.extend((r.below(1 << 30) as u32).to_be_bytes()); }
+    hdr.truncate((lh as usize - 2) * 4);
+    b.extend(hdr);
     let some_char = |r: &mut Rng| (bc + r.below(nchars as u64) as u16) as u8;
     for k in 0..nchars {
-        let w = 1 + r.below(nw as u64 - 1) as u8; let h = r.below(nh as u64) as u8; let d = r.below(nd as u64) as u8; let i = r.below(ni as u64) as u8;
+        let (w, h, d, i) = if full { ((k + 1) as u8, (k % 16) as u8, ((k / 16) % 16) as u8, (k % 64) as u8) }
+            else { (1 + r.below(nw as u64 - 1) as u8, r.below(nh as u64) as u8, r.below(nd as u64) as u8, r.below(ni as u64) as u8) };
         let (tag, rem) = match r.below(5) {
             0 if nl > 0 => (1u8, r.below(nl as u64) as u8),
             1 if k + 1 < nchars => (2u8, (bc + k + 1) as u8),
@@ -114,7 +137,8 @@ fn gen_clean_tfm(r: &mut Rng) -> Vec<u8> {
         b.extend([w, (h << 4) | d, (i << 2) | tag, rem]);
     }
     for n in [nw, nh, nd, ni] { for k in 0..n {
-        let v: u32 = if k == 0 { 0 } else { r.below(1 << 21) as u32 + 1 };
+        // (distinct values when the tables are full)
+        let v: u32 = if k == 0 { 0 } else if full { (k as u32) * 4099 + n as u32 } else { r.below(1 << 21) as u32 + 1 };
         b.extend(v.to_be_bytes());
     } }
     for k in 0..nl {
@@ -133,11 +157,17 @@ fn gen_clean_tfm(r: &mut Rng) -> Vec<u8> {
 /// what a .tfm says about its characters, independent of table layout: the VALUES of the four dimensions, the next-larger
 /// link and the extensible recipe of every character, and the parameters (lig/kern behaviour is compared through the
 /// property lists)
-fn fingerprint(bytes: &[u8]) -> Option<String> {
+fn fingerprint(bytes: &[u8], reference: &[u8]) -> Option<String> { fingerprint_n(bytes, reference, usize::MAX) }
+/// (`extra_words`: how many of the header words beyond the 18 named ones take part)
+fn fingerprint_n(bytes: &[u8], reference: &[u8], extra_words: usize) -> Option<String> {
     let (f, _) = crate::File::deserialize(bytes);
     let mut f = f.ok()?;
     let _ = f.validate_and_fix();
-    let mut out = format!("design {:?} params {:?}\n", f.header.design_size, f.params);
+    let rh = crate::File::deserialize(reference).0.ok()?.header;
+    // the header: checksum, design size, extra words always; coding scheme, family, face where the file has them (a
+    // shorter header gets PLtoTF's defaults in the canonical file)
+    let mut out = format!("design {:?} params {:?} checksum {:?} extra {:?} scheme {:?} family {:?} face {:?}\n", f.header.design_size, f.params, f.header.checksum, f.header.additional_data.iter().take(extra_words).collect::<Vec<_>>(),
+        rh.character_coding_scheme.as_ref().and(f.header.character_coding_scheme.as_ref()), rh.font_family.as_ref().and(f.header.font_family.as_ref()), rh.face.as_ref().and(f.header.face.as_ref()));
     for (c, d) in &f.char_dimens {
         let v = |t: &Vec<crate::FixWord>, i: usize| t.get(i).map(|x| x.0);
         out.push_str(&format!("{:?}: w {:?} h {:?} d {:?} i {:?}", c, v(&f.widths, d.width_index.get() as usize), v(&f.heights, d.height_index as usize), v(&f.depths, d.depth_index as usize), v(&f.italic_corrections, d.italic_index as usize)));
@@ -151,6 +181,19 @@ fn fingerprint(bytes: &[u8]) -> Option<String> {
     Some(out)
 }
 
+/// the header strings and face byte of a generated file, read off the BYTES by this driver (not by the code under test):
+/// words 2..11 CODINGSCHEME, 12..16 FAMILY as BCPL strings (length byte first), byte 3 of word 17 the face
+fn raw_header(b: &[u8]) -> (Option<String>, Option<String>, Option<u8>) {
+    let lh = u16::from_be_bytes([b[2], b[3]]) as usize;
+    let h = &b[24..];
+    let bcpl = |off: usize, area: usize| -> Option<String> { let n = h[off] as usize; if n < area { Some(h[off + 1..off + 1 + n].iter().map(|c| *c as char).collect()) } else { None } };
+    (if lh >= 12 { bcpl(8, 40) } else { None }, if lh >= 17 { bcpl(48, 20) } else { None }, if lh >= 18 { Some(h[71]) } else { None })
+}
+/// the same three fields as the TFM reader reports them
+fn read_header(bytes: &[u8]) -> Option<(Option<String>, Option<String>, Option<u8>)> {
+    let f = crate::File::deserialize(bytes).0.ok()?;
+    Some((f.header.character_coding_scheme.clone(), f.header.font_family.clone(), f.header.face.map(|x| x.into())))
+}
 fn hex(b: &[u8]) -> String { b.iter().map(|x| format!("{x:02x}")).collect() }
 
 #[test]
@@ -161,9 +204,11 @@ fn whole_files() {
     let mut r = Rng(0x9E3779B97F4A7C15);
     let (mut clean, mut with_warnings, mut rejected, mut texts) = (0u64, 0u64, 0u64, 0u64);
     let mut failures = 0;
+    let mut long_header_reported = false;
     let fmt = |_: &crate::pl::File| crate::pl::CharDisplayFormat::Default;
     for _ in 0..n_files {
-        let b = if r.below(2) == 0 { gen_clean_tfm(&mut r) } else { gen_tfm(&mut r) };
+        let is_clean_gen = r.below(2) == 0;
+        let b = if is_clean_gen { gen_clean_tfm(&mut r) } else { gen_tfm(&mut r) };
         let b2 = b.clone();
         let out = std::panic::catch_unwind(move || tfm_to_pl(&b2, 3, &fmt).map(|o| (o.pl_data.ok(), o.error_messages.len())));
         let (pl, n_msgs) = match out {
@@ -192,14 +237,29 @@ fn whole_files() {
             if !hits.is_empty() {
                 let (i, m) = hits[r.below(hits.len() as u64) as usize];
                 let end = pl[i + m.len()..].find(|c: char| c == ')' || c == ' ' || c == '\n').map(|e| i + m.len() + e).unwrap_or(pl.len());
-                let big = ["R 3000000000.5", "R -99999999999999999999.99999999999999999999", "R 2047.9999999", "R 2048", "R .", "R -", "D 99999999999", "D 256", "O 777777777777", "O 8", "H FFFFFFFFF", "H G", "C é", "C", "R 1e5", "D -1"][r.below(16) as usize];
+                let big = ["R 3000000000.5", "R -99999999999999999999.99999999999999999999", "R 2047.9999999", "R 2048", "R .", "R -", "D 99999999999", "D 256", "O 777777777777", "O 8", "H FFFFFFFFF", "H G", "C é", "C", "R 1e5", "D -1", "C \u{100}", "C \u{80}", "C \u{1F600}", "F XXX"][r.below(20) as usize];
                 variants.push(format!("{} {}{}", &pl[..i], big, &pl[end..]));
             }
+        }
+        // a property appended to the list: labels without instructions, skips past the end, characters beyond Latin-1,
+        // header / parameter numbers at and beyond their limits
+        if !pl.is_empty() {
+            let extra = ["(LIGTABLE (LABEL BOUNDARYCHAR))", "(LIGTABLE (LABEL BOUNDARYCHAR) (STOP))", "(LIGTABLE (LABEL C A) (SKIP D 3))", "(LIGTABLE (LABEL C A) (LIG C A C A) (SKIP D 200))",
+                "(CHARACTER C \u{100} (CHARWD R 1.0))", "(HEADER D 300 O 1)", "(HEADER D 18 O 1)", "(HEADER D 17 O 1)", "(PARAMETER D 255 R 1.0)", "(PARAMETER D 0 R 1.0)", "(CHARACTER C A (NEXTLARGER C A))",
+                "(LIGTABLE (LABEL C A) (LABEL C B) (KRN C A R 1.0) (STOP) (LABEL C C))", "(BOUNDARYCHAR C A)(LIGTABLE (LABEL BOUNDARYCHAR) (LIG C A C A))", "(FACE F BIE)", "(FACE O 377)", "(FACE D 256)",
+                "(CODINGSCHEME 0123456789012345678901234567890123456789)", "(FAMILY 01234567890123456789)", "(SEVENBITSAFEFLAG TRUE)(CHARACTER O 200)"][r.below(19) as usize];
+            variants.push(format!("{pl}{extra}\n"));
         }
         for v in variants {
             texts += 1;
             let v2 = v.clone();
-            if std::panic::catch_unwind(move || pl_to_tfm(&v2)).is_err() {
+            // (C10, last clause: whatever PL -> TFM returns is accepted by the TFM reader)
+            let res = std::panic::catch_unwind(move || { let (bytes, _) = pl_to_tfm(&v2); crate::File::deserialize(&bytes).0.is_ok() });
+            if let Ok(false) = res {
+                println!("WITNESS {{\"fn\": \"pl_to_tfm\", \"unit_fns\": [\"from_pl_source_code\", \"from\", \"serialize\", \"deserialize\"], \"pl_text\": \"{}\", \"observed\": \"the .tfm written for this text is rejected by the TFM reader\", \"expected\": \"a readable .tfm (C10)\"}}", v.escape_default().to_string().replace('"', "'").replace('\\', "/"));
+                failures += 1; if failures >= 5 { return; }
+            }
+            if res.is_err() {
                 println!("WITNESS {{\"fn\": \"pl_to_tfm\", \"unit_fns\": [\"from_pl_source_code\", \"from\", \"serialize\"], \"pl_text\": \"{}\", \"observed\": \"panic\", \"expected\": \"a .tfm file and warnings (C10)\"}}", v.escape_default().to_string().replace('"', "'").replace('\\', "/"));
                 failures += 1; if failures >= 5 { return; }
             }
@@ -218,7 +278,7 @@ fn whole_files() {
         });
         match res {
             Err(_) => {
-                println!("WITNESS {{\"fn\": \"round_trip\", \"unit_fns\": [\"from\", \"serialize\", \"deserialize\", \"pack_entrypoints\"], \"tfm_bytes_hex\": \"{}\", \"observed\": \"panic while converting the warning-free file back and forth\", \"expected\": \"no panic\"}}", hex(&b));
+                println!("WITNESS {{\"fn\": \"round_trip_panic\", \"unit_fns\": [\"from\", \"serialize\", \"deserialize\", \"pack_entrypoints\"], \"tfm_bytes_hex\": \"{}\", \"observed\": \"panic while converting the warning-free file back and forth\", \"expected\": \"no panic\"}}", hex(&b));
                 failures += 1;
             }
             Ok((t1, w1, pl2, n2, t2, w2)) => {
@@ -227,12 +287,25 @@ fn whole_files() {
                     else if n2 > 0 { Some(format!("the canonical .tfm raises {n2} warning(s)")) }
                     else if w2 > 0 { Some("second PL read raises warnings".to_string()) }
                     else if t2.as_ref() != Some(&t1) { Some("a further PL round trip changes the canonical .tfm".to_string()) }
-                    else if fingerprint(&b) != fingerprint(&t1) { Some(format!("the canonical .tfm gives some character different dimensions, links, recipes or parameters: {:?} became {:?}", fingerprint(&b), fingerprint(&t1)).replace('"', "'").replace('\\', "/").chars().take(700).collect()) }
+                    else if is_clean_gen && read_header(&b) != Some(raw_header(&b)) { Some(format!("the TFM reader reports the header {:?} for a file whose bytes hold {:?}", read_header(&b), raw_header(&b)).replace('"', "'")) }
+                    else if is_clean_gen && { let (rs, rf, rface) = raw_header(&b); let got = read_header(&t1); got.as_ref().map_or(true, |g| (rs.is_some() && g.0 != rs) || (rf.is_some() && g.1 != rf) || (rface.is_some() && g.2 != rface)) } { Some(format!("the canonical .tfm has the header {:?}, the original's bytes hold {:?}", read_header(&t1), raw_header(&b)).replace('"', "'")) }
+                    else if fingerprint(&b, &b) != fingerprint(&t1, &b) { Some(format!("the canonical .tfm has a different header or gives some character different dimensions, links, recipes or parameters: {:?} became {:?}", fingerprint(&b, &b), fingerprint(&t1, &b)).replace('"', "'").replace('\\', "/").chars().take(700).collect()) }
                     else if pl2.as_ref().map(|p| font_description(p)) != Some(font_description(&pl)) { Some("the canonical .tfm describes a different font (its property list differs from the original's beyond the header defaults PLtoTF always writes)".to_string()) }
                     else { None };
                 if let Some(pb) = problem {
-                    println!("WITNESS {{\"fn\": \"round_trip\", \"unit_fns\": [\"from\", \"serialize\", \"deserialize\", \"pack_entrypoints\", \"compress\"], \"tfm_bytes_hex\": \"{}\", \"observed\": \"{pb}\", \"expected\": \"canonical fixed point without warnings (C11)\"}}", hex(&b));
-                    failures += 1;
+                    // a failure whose ONLY content is that header words beyond index 255 are missing from the canonical file is
+                    // labelled with its class (one report; see known_findings.json) - any other difference is reported as usual
+                    let only_long_header = t2.as_ref() == Some(&t1) && w1 == 0 && n2 == 0 && w2 == 0 && pl2.is_some()
+                        && fingerprint(&b, &b) != fingerprint(&t1, &b) && fingerprint_n(&b, &b, 238) == fingerprint_n(&t1, &b, 238);
+                    if only_long_header {
+                        if !long_header_reported {
+                            long_header_reported = true;
+                            println!("WITNESS {{\"fn\": \"round_trip\", \"class\": \"header words beyond index 255 dropped without a warning\", \"unit_fns\": [\"lower\"], \"tfm_bytes_hex\": \"{}\", \"observed\": \"lh = {} > 256: the canonical .tfm lacks the header words with index above 255, and no warning was raised\", \"expected\": \"same header, or a warning (C11)\"}}", hex(&b[..b.len().min(64)]), u16::from_be_bytes([b[2], b[3]]));
+                        }
+                    } else {
+                        println!("WITNESS {{\"fn\": \"round_trip\", \"unit_fns\": [\"from\", \"serialize\", \"deserialize\", \"pack_entrypoints\", \"compress\"], \"tfm_bytes_hex\": \"{}\", \"observed\": \"{pb}\", \"expected\": \"canonical fixed point without warnings (C11)\"}}", hex(&b));
+                        failures += 1;
+                    }
                 }
             }
         }
@@ -302,7 +375,8 @@ fn large_lig_kern_programs() {
             (t1, w1.len(), p1, n1, t2, t3)
         });
         let fail = |obs: String| {
-            println!("WITNESS {{\"fn\": \"pack_entrypoints\", \"unit_fns\": [\"pack_entrypoints\", \"unpack_entrypoint\", \"from\", \"serialize\", \"deserialize\"], \"program\": \"{total} instructions, boundary char: {boundary}, labels at {:?}\", \"observed\": \"{}\", \"expected\": \"every label keeps pointing at its instruction through PL -> TFM -> PL; no warnings; fixed point (C11)\"}}", positions, obs.replace('"', "'"));
+            let fname = if obs == "panic" { "pack_entrypoints_panic" } else { "pack_entrypoints" };
+            println!("WITNESS {{\"fn\": \"{fname}\", \"unit_fns\": [\"pack_entrypoints\", \"unpack_entrypoint\", \"from\", \"serialize\", \"deserialize\"], \"program\": \"{total} instructions, boundary char: {boundary}, labels at {:?}\", \"observed\": \"{}\", \"expected\": \"every label keeps pointing at its instruction through PL -> TFM -> PL; no warnings; fixed point (C11)\"}}", positions, obs.replace('"', "'"));
         };
         match res {
             Err(_) => { fail("panic".into()); return; }
@@ -319,4 +393,61 @@ fn large_lig_kern_programs() {
         }
     } } }
     println!("STATS {{\"driver\": \"large lig/kern programs\", \"files\": {n_files}}}");
+}
+
+// ---------------------------------------------------------------- C10: a lig/kern table at and beyond PLtoTF's size limit
+#[test]
+fn huge_lig_table() {
+    std::panic::set_hook(Box::new(|info| { println!("PANICLOC {}", info.to_string().replace('\n', " ").chars().take(300).collect::<String>()); }));
+    let mut n_texts = 0;
+    for n in [32508usize, 32509, 32510, 32511, 32512, 32513, 32600, 33000, 66000] {
+        for label_at_end in [false, true] {
+            let mut pl = String::from("(CHARACTER C A (CHARWD R 1.0))\n(LIGTABLE\n   (LABEL C A)\n");
+            for _ in 0..n { pl.push_str("   (KRN C A R 0.5)\n"); }
+            if label_at_end { pl.push_str("   (LABEL C B)\n   (KRN C A R 0.25)\n"); }
+            pl.push_str("   (STOP)\n   )\n");
+            n_texts += 1;
+            let p2 = pl.clone();
+            let res = std::panic::catch_unwind(move || { let (bytes, _) = pl_to_tfm(&p2); crate::File::deserialize(&bytes).0.is_ok() });
+            match res {
+                Err(_) => { println!("WITNESS {{\"fn\": \"pl_to_tfm\", \"unit_fns\": [\"from_ast\"], \"pl_text\": \"(CHARACTER C A (CHARWD R 1.0)) (LIGTABLE (LABEL C A) {n} x (KRN C A R 0.5){} (STOP))\", \"observed\": \"panic\", \"expected\": \"a .tfm file and warnings (C10)\"}}", if label_at_end { " (LABEL C B) (KRN C A R 0.25)" } else { "" }); return; }
+                Ok(false) => { println!("WITNESS {{\"fn\": \"pl_to_tfm\", \"unit_fns\": [\"from_ast\", \"serialize\"], \"pl_text\": \"(LIGTABLE (LABEL C A) {n} x (KRN C A R 0.5) (STOP))\", \"observed\": \"the .tfm written for this text is rejected by the TFM reader\", \"expected\": \"a readable .tfm (C10)\"}}"); return; }
+                Ok(true) => {}
+            }
+        }
+    }
+    // every one of the 256 characters with its own label beyond position 255: 256 (or 255) entry-point redirections
+    for n_labels in [254usize, 255, 256] { for boundary in [false, true] { for lead in [0usize, 1, 255, 256, 300] {
+        let mut pl = String::new();
+        if boundary { pl.push_str("(BOUNDARYCHAR O 1)\n"); }
+        for c in 0..n_labels { pl.push_str(&format!("(CHARACTER O {:o} (CHARWD R 1.0))\n", c)); }
+        pl.push_str("(LIGTABLE\n");
+        for _ in 0..lead { pl.push_str("   (KRN O 1 R 0.5)\n"); }
+        if lead > 0 { pl.push_str("   (STOP)\n"); }
+        for c in 0..n_labels { pl.push_str(&format!("   (LABEL O {:o})\n   (KRN O 2 R 0.25)\n   (STOP)\n", c)); }
+        pl.push_str("   )\n");
+        n_texts += 1;
+        let p2 = pl.clone();
+        // (and the file written is a fixed point of a further round trip in which every label keeps its instruction)
+        let fmt = |_: &crate::pl::File| crate::pl::CharDisplayFormat::Default;
+        let res = std::panic::catch_unwind(move || {
+            let (bytes, _) = pl_to_tfm(&p2);
+            if crate::File::deserialize(&bytes).0.is_err() { return false; }
+            let o = tfm_to_pl(&bytes, 3, &fmt).unwrap();
+            let Ok(p1) = o.pl_data else { return false; };
+            // (the unlabelled leading instructions are unreachable and disappear: the canonical file is the SECOND one)
+            let (t2, _) = pl_to_tfm(&p1);
+            let Ok(p2) = tfm_to_pl(&t2, 3, &fmt).unwrap().pl_data else { return false; };
+            let (t3, _) = pl_to_tfm(&p2);
+            // (every character keeps a label, and the kern it leads to: TFtoPL repeats each program as a comment under its CHARACTER)
+            t3 == t2 && p2.matches("(LABEL ").count() == n_labels && p2.matches("(KRN O 2 R 0.25)").count() == 2 * n_labels
+        });
+        let desc = format!("{}{n_labels} characters O 0.. each with (LABEL)(KRN O 2 R 0.25)(STOP) after {lead} unlabelled instructions", if boundary { "(BOUNDARYCHAR O 1) " } else { "" });
+        match res {
+            Err(_) => { println!("WITNESS {{\"fn\": \"pl_to_tfm\", \"unit_fns\": [\"pack_entrypoints\"], \"pl_text\": \"{desc}\", \"observed\": \"panic\", \"expected\": \"a .tfm file and warnings (C10)\"}}"); return; }
+            Ok(false) => { println!("WITNESS {{\"fn\": \"pl_to_tfm\", \"unit_fns\": [\"pack_entrypoints\", \"serialize\"], \"pl_text\": \"{desc}\", \"observed\": \"the .tfm written for this text is rejected by the TFM reader, or is not a fixed point of a further round trip, or loses labels\", \"expected\": \"a readable canonical .tfm (C10, C11)\"}}"); return; }
+            Ok(true) => {}
+        }
+    } } }
+    println!("STATS {{\"driver\": \"huge lig/kern tables\", \"texts\": {n_texts}}}");
 }
